@@ -1,31 +1,113 @@
 package main
 
 import (
+	"fmt"
 	"go/types"
 
 	"golang.org/x/tools/go/ssa"
 )
 
-// Environment-channel model (DESIGN §2.6): one goroutine is executed; the other
-// side of every channel is the environment.
+// Environment-channel model (DESIGN §2.6).  ONE goroutine (the harness / the event loop under
+// test) is executed.  Everything else is environment:
+//   - a `go f(x)` statement creates a pending TASK; a task runs atomically, to completion, at a
+//     scheduler-chosen later point (any select of the main goroutine, or when the main goroutine
+//     would otherwise block on a receive); this covers the `go func(){ ch <- fn() }()` pattern of
+//     runner.Do / deploymentManager.do: the effects of fn happen at an arbitrary later moment;
+//   - channels registered with verif_EnvChan are environment sources (a fresh value from the
+//     harness generator whenever the scheduler picks them, up to a limit); verif_EnvSink marks
+//     channels the environment always receives from;
+//   - every blocking select is a choice point over {ready cases} ∪ {run pending task i}.
 
 type envState struct {
 	stepsLeft int
 	stepsSet  bool
-	inflight  []*inflightOp
-	goLog     []string
+	tasks     []*task
+	inTask    int
+	onQuiet   Value
+	taskGates []string
+	seq       int
 }
 
-type inflightOp struct {
-	ch   *ChanObj
-	fn   FuncV
-	args []Value
-	done bool
+type task struct {
+	fn    Value
+	args  []Value
+	label string
+	cc    *ssa.CallCommon
+}
+
+type inflightOp struct{} // kept for ChanObj compatibility
+
+func (p *Path) envst() *envState {
+	if p.env == nil {
+		p.env = &envState{}
+	}
+	return p.env
 }
 
 func (p *Path) newChan(n int, et types.Type) *ChanObj {
 	p.cellSeq++
 	return &ChanObj{id: p.cellSeq, cap: n, et: et, envLimit: -1}
+}
+
+func (p *Path) blocked(msg string) {
+	p.unsupMsg = msg
+	panic(pathAbort{"blocked"})
+}
+
+func chanRecvReady(ch *ChanObj) bool {
+	if ch == nil {
+		return false
+	}
+	if len(ch.buf) > 0 || ch.closed {
+		return true
+	}
+	return ch.envGen != nil && ch.envCount < ch.envLimit
+}
+
+func chanSendReady(ch *ChanObj) bool {
+	if ch == nil {
+		return false
+	}
+	return ch.closed || ch.sink || len(ch.buf) < ch.cap || ch.envRecv
+}
+
+func (p *Path) chanTake(ch *ChanObj) (Value, bool) {
+	switch {
+	case len(ch.buf) > 0:
+		v := ch.buf[0]
+		ch.buf = ch.buf[1:]
+		if len(ch.gateLog) > 0 && p.envst().inTask == 0 {
+			p.log = append(p.log, ch.gateLog...)
+			ch.gateLog = nil
+		}
+		return v, true
+	case ch.closed:
+		return zeroValue(ch.et), false
+	case ch.envGen != nil && ch.envCount < ch.envLimit:
+		ch.envCount++
+		v := p.callValue(ch.envGen, nil, nil, nil)
+		if iv, ok := v.(IfaceV); ok && !types.IsInterface(ch.et) {
+			v = iv.v
+		}
+		return v, true
+	}
+	p.unsup("chanTake on a channel that is not ready")
+	return nil, false
+}
+
+func (p *Path) chanPut(ch *ChanObj, v Value) {
+	if ch.closed {
+		p.throwRuntime("send on closed channel")
+	}
+	ch.sent = append(ch.sent, v)
+	if e := p.envst(); e.inTask > 0 && len(e.taskGates) > 0 {
+		ch.gateLog = append(ch.gateLog, e.taskGates...)
+		e.taskGates = nil
+	}
+	if ch.sink || (ch.envRecv && len(ch.buf) >= ch.cap) {
+		return
+	}
+	ch.buf = append(ch.buf, v)
 }
 
 func (p *Path) chanSend(c ChanV, v Value) {
@@ -36,63 +118,312 @@ func (p *Path) chanSend(c ChanV, v Value) {
 	if ch.closed {
 		p.throwRuntime("send on closed channel")
 	}
-	ch.sent = append(ch.sent, v)
-	if ch.sink {
-		return
+	if !chanSendReady(ch) {
+		what := "send would block forever"
+		if ch.cap > 0 {
+			what = "second send on a full reply channel would block forever"
+		}
+		p.blocked(fmt.Sprintf("%s (channel %s)", what, ch.label))
 	}
-	if len(ch.buf) < ch.cap {
-		ch.buf = append(ch.buf, v)
-		return
-	}
-	if ch.cap == 0 && ch.envRecv {
-		return
-	}
-	p.blocked("send would block forever on channel " + ch.label)
+	p.chanPut(ch, v)
 }
 
-func (p *Path) blocked(msg string) {
-	p.unsupMsg = msg
-	panic(pathAbort{"blocked"})
-}
-
+// chanRecv: blocking receive outside a select.  If nothing is available, pending tasks are run
+// (scheduler's choice) until the channel has data.
 func (p *Path) chanRecv(c ChanV, commaOk bool) Value {
 	ch := c.ch
 	if ch == nil {
 		p.blocked("receive from nil channel")
 	}
-	var v Value
-	ok := true
-	switch {
-	case len(ch.buf) > 0:
-		v = ch.buf[0]
-		ch.buf = ch.buf[1:]
-	case ch.closed:
-		v = zeroValue(ch.et)
-		ok = false
-	case ch.pending != nil && !ch.pending.done:
-		v = p.deliverInflight(ch.pending)
-	case ch.envGen != nil && (ch.envLimit < 0 || ch.envCount < ch.envLimit):
-		ch.envCount++
-		v = p.callValue(ch.envGen, nil, nil, nil)
-	default:
-		p.blocked("receive would block forever on channel " + ch.label)
+	for !chanRecvReady(ch) {
+		e := p.envst()
+		if len(e.tasks) == 0 {
+			if e.inTask > 0 {
+				p.unsup("a spawned goroutine would block on a receive (not modelled)")
+			}
+			p.blocked("receive would block forever on channel " + ch.label)
+		}
+		p.runTask(p.choose(len(e.tasks), "task"))
 	}
+	v, ok := p.chanTake(ch)
 	if commaOk {
 		return TupleV{v, mkBool(ok)}
 	}
 	return v
 }
 
-func (p *Path) deliverInflight(op *inflightOp) Value {
-	op.done = true
-	return p.callValue(op.fn, op.args, nil, nil)
+func (p *Path) doGo(fr *Frame, x *ssa.Go) {
+	cc := &x.Call
+	var fv Value
+	var args []Value
+	if cc.IsInvoke() {
+		recv := p.eval(fr, cc.Value)
+		for _, a := range cc.Args {
+			args = append(args, p.eval(fr, a))
+		}
+		fv = FuncV{intr: "invoke:" + cc.Method.Name(), recv: TupleV{recv, cc.Method}}
+	} else {
+		fv = p.eval(fr, cc.Value)
+		for _, a := range cc.Args {
+			args = append(args, p.eval(fr, a))
+		}
+	}
+	label := "go"
+	if f, ok := fv.(FuncV); ok && f.fn != nil {
+		label = f.fn.String()
+	}
+	e := p.envst()
+	e.tasks = append(e.tasks, &task{fn: fv, args: args, label: label, cc: cc})
 }
 
-func (p *Path) doGo(fr *Frame, x *ssa.Go) {
-	p.unsup("go statement in %s (no environment model registered)", fr.fn)
+func (p *Path) runTask(i int) {
+	e := p.envst()
+	t := e.tasks[i]
+	e.tasks = append(append([]*task{}, e.tasks[:i]...), e.tasks[i+1:]...)
+	e.inTask++
+	saved := e.taskGates
+	e.taskGates = nil
+	defer func() {
+		e.inTask--
+		if len(e.taskGates) > 0 {
+			// the task ended without handing a result to any channel: its steps happen now
+			p.log = append(p.log, e.taskGates...)
+		}
+		e.taskGates = saved
+	}()
+	p.callValue(t.fn, t.args, nil, t.cc)
 }
 
 func (p *Path) selectOp(fr *Frame, x *ssa.Select) Value {
-	p.unsup("select in %s", fr.fn)
-	return nil
+	e := p.envst()
+	type st struct {
+		ch   *ChanObj
+		send bool
+		val  Value
+	}
+	states := make([]st, len(x.States))
+	for i, s := range x.States {
+		cv := p.eval(fr, s.Chan).(ChanV)
+		states[i] = st{ch: cv.ch, send: s.Dir == types.SendOnly}
+		if states[i].send {
+			states[i].val = p.eval(fr, s.Send)
+		}
+	}
+	mkResult := func(idx int, recvVal Value, recvOk bool) Value {
+		res := TupleV{mkInt64(int64(idx)), mkBool(recvOk)}
+		for i, s := range x.States {
+			if s.Dir == types.RecvOnly {
+				if i == idx {
+					res = append(res, recvVal)
+				} else {
+					res = append(res, zeroValue(s.Chan.Type().Underlying().(*types.Chan).Elem()))
+				}
+			}
+		}
+		return res
+	}
+	counted := false
+	for {
+		var ready []int
+		for i, s := range states {
+			if s.send && chanSendReady(s.ch) || !s.send && chanRecvReady(s.ch) {
+				ready = append(ready, i)
+			}
+		}
+		if !x.Blocking {
+			if len(ready) == 0 {
+				return mkResult(-1, nil, false)
+			}
+		} else if e.inTask == 0 && e.stepsSet && !counted {
+			counted = true
+			e.stepsLeft--
+			if e.stepsLeft < 0 {
+				// budget exhausted: only final sources may fire
+				var fin []int
+				for _, i := range ready {
+					if !states[i].send && states[i].ch.final {
+						fin = append(fin, i)
+					}
+				}
+				if len(fin) == 0 {
+					p.quiescent("step budget exhausted")
+				}
+				ready = fin
+				idx := ready[p.choose(len(ready), "select")]
+				v, ok := p.chanTake(states[idx].ch)
+				return mkResult(idx, v, ok)
+			}
+		}
+		ntasks := 0
+		if e.inTask == 0 {
+			ntasks = len(e.tasks)
+		}
+		if len(ready)+ntasks == 0 {
+			if e.inTask > 0 {
+				p.unsup("a spawned goroutine would block in select (not modelled)")
+			}
+			p.quiescent("nothing can happen any more")
+		}
+		c := p.choose(len(ready)+ntasks, "select")
+		if c >= len(ready) {
+			p.runTask(c - len(ready))
+			continue // re-evaluate readiness with the task's effects
+		}
+		idx := ready[c]
+		if states[idx].send {
+			p.chanPut(states[idx].ch, states[idx].val)
+			return mkResult(idx, nil, false)
+		}
+		v, ok := p.chanTake(states[idx].ch)
+		return mkResult(idx, v, ok)
+	}
+}
+
+// quiescent: the main goroutine waits and nothing will ever wake it.  For an event loop this is
+// the normal idle state; the harness's quiescence callback (liveness oracle) runs, then the path ends.
+func (p *Path) quiescent(why string) {
+	e := p.envst()
+	if e.onQuiet != nil {
+		cb := e.onQuiet
+		e.onQuiet = nil
+		p.reached = append(p.reached, "quiescent")
+		e.inTask++ // selects inside the callback must not recurse into scheduling
+		p.callValue(cb, nil, nil, nil)
+		e.inTask--
+		panic(pathAbort{"done"})
+	}
+	p.unsupMsg = why
+	panic(pathAbort{"blocked"})
+}
+
+func init() {
+	reg("verif_Steps", func(p *Path, fn *ssa.Function, a []Value) Value {
+		e := p.envst()
+		e.stepsLeft = p.concreteInt(a[0], "verif_Steps")
+		e.stepsSet = true
+		return nil
+	})
+	reg("verif_OnQuiescent", func(p *Path, fn *ssa.Function, a []Value) Value {
+		p.envst().onQuiet = a[0]
+		return nil
+	})
+	envChan := func(final bool) Intrinsic {
+		return func(p *Path, fn *ssa.Function, a []Value) Value {
+			iv := a[0].(IfaceV)
+			cv, ok := iv.v.(ChanV)
+			if !ok || cv.ch == nil {
+				p.unsup("verif_EnvChan on %T", iv.v)
+			}
+			cv.ch.label = p.strArg(a[1])
+			cv.ch.envLimit = p.concreteInt(a[2], "limit")
+			cv.ch.envGen = a[3]
+			cv.ch.final = final
+			return nil
+		}
+	}
+	reg("verif_EnvChan", envChan(false))
+	reg("verif_EnvFinal", envChan(true))
+	reg("verif_EnvSink", func(p *Path, fn *ssa.Function, a []Value) Value {
+		cv := a[0].(IfaceV).v.(ChanV)
+		cv.ch.sink = true
+		cv.ch.label = p.strArg(a[1])
+		return nil
+	})
+	reg("verif_Gate", func(p *Path, fn *ssa.Function, a []Value) Value {
+		name := p.strArg(a[0])
+		n := p.concreteInt(a[1], "verif_Gate n")
+		o := p.choose(n, "gate:"+name)
+		entry := fmt.Sprintf("op:%s:%d", name, o)
+		if e := p.envst(); e.inTask > 0 {
+			// inside a goroutine task: the step is logged when the main goroutine receives the
+			// task's result, which is the moment a native replay has to let the operation finish
+			e.taskGates = append(e.taskGates, entry)
+		} else {
+			p.log = append(p.log, entry)
+		}
+		return mkInt64(int64(o))
+	})
+	reg("verif_Pick", func(p *Path, fn *ssa.Function, a []Value) Value {
+		label := p.strArg(a[0])
+		n := p.concreteInt(a[1], "verif_Pick n")
+		o := p.choose(n, "pick:"+label)
+		p.log = append(p.log, fmt.Sprintf("%s:%d", label, o))
+		return mkInt64(int64(o))
+	})
+	reg("verif_ChanLog", func(p *Path, fn *ssa.Function, a []Value) Value {
+		// number of values ever sent on the channel
+		cv := a[0].(IfaceV).v.(ChanV)
+		if cv.ch == nil {
+			return mkInt64(0)
+		}
+		return mkInt64(int64(len(cv.ch.sent)))
+	})
+	reg("verif_PendingTasks", func(p *Path, fn *ssa.Function, a []Value) Value {
+		return mkInt64(int64(len(p.envst().tasks)))
+	})
+	// time: timers are environment sources that may fire at any later select
+	reg("time.After", func(p *Path, fn *ssa.Function, a []Value) Value {
+		ch := p.newChan(1, fn.Signature.Results().At(0).Type().Underlying().(*types.Chan).Elem())
+		ch.label = "timer"
+		ch.envLimit = 1
+		ch.envGen = FuncV{intr: "zerotime", recv: OpaqueV{kind: "type", data: ch.et}}
+		return ChanV{ch}
+	})
+	boundIntrinsics["zerotime"] = func(p *Path, recv Value, a []Value) Value {
+		p.log = append(p.log, "timer")
+		return zeroValue(recv.(OpaqueV).data.(types.Type))
+	}
+	reg("time.Now", func(p *Path, fn *ssa.Function, a []Value) Value { return zeroValue(fn.Signature.Results().At(0).Type()) })
+	reg("time.Since", func(p *Path, fn *ssa.Function, a []Value) Value { return mkInt64(0) })
+	reg("(time.Time).Sub", func(p *Path, fn *ssa.Function, a []Value) Value { return mkInt64(0) })
+	reg("time.NewTimer", func(p *Path, fn *ssa.Function, a []Value) Value {
+		tt := deref(fn.Signature.Results().At(0).Type())
+		st := tt.Underlying().(*types.Struct)
+		tv := zeroValue(tt).(StructV)
+		f := append([]Value{}, tv.f...)
+		for i := 0; i < st.NumFields(); i++ {
+			if st.Field(i).Name() == "C" {
+				ch := p.newChan(1, st.Field(i).Type().Underlying().(*types.Chan).Elem())
+				ch.label = "timer"
+				ch.envLimit = 1
+				ch.envGen = FuncV{intr: "zerotime", recv: OpaqueV{kind: "type", data: ch.et}}
+				f[i] = ChanV{ch}
+			}
+		}
+		return PtrV{c: p.newCell(StructV{f}, tt)}
+	})
+	timerChan := func(p *Path, t Value) *ChanObj {
+		sv := t.(PtrV).load().(StructV)
+		for _, f := range sv.f {
+			if cv, ok := f.(ChanV); ok {
+				return cv.ch
+			}
+		}
+		p.unsup("timer without channel")
+		return nil
+	}
+	reg("(*time.Timer).Stop", func(p *Path, fn *ssa.Function, a []Value) Value {
+		ch := timerChan(p, a[0])
+		active := ch.envCount < ch.envLimit
+		ch.envLimit = ch.envCount
+		return mkBool(active)
+	})
+	reg("(*time.Timer).Reset", func(p *Path, fn *ssa.Function, a []Value) Value {
+		ch := timerChan(p, a[0])
+		active := ch.envCount < ch.envLimit
+		ch.envLimit = ch.envCount + 1
+		return mkBool(active)
+	})
+	// context: cancellation is not observed by the stubs
+	reg("context.Background", func(p *Path, fn *ssa.Function, a []Value) Value {
+		return IfaceV{t: opaqueType, v: OpaqueV{kind: "plainctx", data: "background"}}
+	})
+	reg("context.TODO", intrinsics["context.Background"])
+	reg("context.WithCancel", func(p *Path, fn *ssa.Function, a []Value) Value {
+		return TupleV{a[0], FuncV{intr: "noop"}}
+	})
+	boundIntrinsics["noop"] = func(p *Path, recv Value, a []Value) Value { return nil }
+	opaqueMethods["plainctx.Done"] = func(p *Path, ov OpaqueV, a []Value) Value { return ChanV{} }
+	opaqueMethods["plainctx.Err"] = func(p *Path, ov OpaqueV, a []Value) Value { return IfaceV{} }
+	opaqueMethods["plainctx.Value"] = func(p *Path, ov OpaqueV, a []Value) Value { return IfaceV{} }
 }
